@@ -21,16 +21,7 @@ from .corpus import CORPUS
 VERIF = os.path.dirname(os.path.dirname(os.path.dirname(os.path.abspath(__file__))))
 
 # refactorings the analysis does not follow (it answers ANALYSIS-ERROR, exit 2, on them -- never a VIOLATION): DESIGN 10.9
-UNHANDLED_REFACTORINGS = {
-    "r7-5": "ArrivalNode.have_event split into batch release and re-scheduling helpers (C06 batch-loop clause reads the loop in have_event)",
-    "r7-6": "find_next_event_date keeps a running (node, class, date) triple unpacked at the end",
-    "r7-7": "baulking function looked up once into a local before the random draw",
-    "r7-8": "Schedule/Slotted share a static validation helper; generator rewritten over itertools.count()",
-    "r8-1": "tracker handlers routed through _adjust(node, key, delta) with the column passed as a parameter",
-    "r8-4": "tracker handlers routed through _adjust(node, delta) behind a guard clause; adjust_positions over enumerate()",
-    "r8-6": "ProcessBased.next_node as a template method with an overridable hook",
-    "r8-7": "StateDigraph.detect_deadlock through any(_is_knot(c) ...); add_edges_from / remove_edges_from",
-}
+UNHANDLED_REFACTORINGS = {}
 
 
 def _analyse(pid, root):
